@@ -208,7 +208,34 @@ def _nearest(x, o):
         fl = math.floor(x)
         r = fl + (1 if (x - fl > Fraction(1, 2) or (x - fl == Fraction(1, 2) and fl % 2 == 1)) else 0)
         return builtins.int(builtins.min(builtins.max(r, info.min), info.max))
-    return float(real_np.float32(float(x))) if float(x) == x else None
+    if float(x) == x:
+        return float(real_np.float32(float(x)))
+    return _round_to_float32(Fraction(x))
+
+
+def _round_to_float32(x):
+    """exact round-to-nearest-even of a rational to float32 (normal and subnormal range; None beyond the finite range)"""
+    from fractions import Fraction
+    import math
+    if x == 0:
+        return 0.0
+    sign = -1 if x < 0 else 1
+    a = abs(x)
+    e = math.floor(math.log2(a)) - 23
+    while a / Fraction(2) ** e >= 1 << 24:
+        e += 1
+    while a / Fraction(2) ** e < 1 << 23:
+        e -= 1
+    e = builtins.max(e, -149)
+    q = a / Fraction(2) ** e
+    m = math.floor(q)
+    r = q - m
+    if r > Fraction(1, 2) or (r == Fraction(1, 2) and m % 2 == 1):
+        m += 1
+    v = Fraction(m) * Fraction(2) ** e
+    if v > Fraction(real_np.finfo(real_np.float32).max.item()):
+        return None
+    return sign * float(v)
 
 
 def replay(cfg, cex):
